@@ -157,6 +157,8 @@ impl Strategy {
 enum Status {
     Runnable,
     Blocked(usize),
+    /// waiting on a condition variable (ordinal)
+    Waiting(usize),
     Done,
 }
 
@@ -184,6 +186,8 @@ pub struct RunStats {
     pub host_reads: u64,
     pub max_waiters: u64,
     pub stmt_point_yields: u64,
+    pub cv_waits: u64,
+    pub cv_notifies: u64,
 }
 
 struct St {
@@ -195,6 +199,9 @@ struct St {
     lock_ids: Vec<usize>,
     lazy_ids: Vec<usize>,
     lazy_cold_seen: Vec<Vec<usize>>,
+    cv_ids: Vec<usize>,
+    /// per condition variable: (waiting thread, already notified?)
+    cv_waiters: Vec<Vec<(usize, bool)>>,
     rng: Rng,
     strategy: Strategy,
     prio: Vec<u32>,
@@ -252,6 +259,8 @@ pub fn sim() -> &'static Sim {
                 lock_ids: vec![],
                 lazy_ids: vec![],
                 lazy_cold_seen: vec![],
+                cv_ids: vec![],
+                cv_waiters: vec![],
                 rng: Rng::new(0),
                 strategy: Strategy::Random,
                 prio: vec![],
@@ -316,6 +325,10 @@ impl Sim {
         }
     }
 
+    /// Appends to the event log. Lock and condition-variable identities are
+    /// deliberately NOT part of it: they are addresses, and whether a freed
+    /// lock's address is reused by the allocator is not decided by the
+    /// schedule.
     fn event(st: &mut St, me: usize, kind: &str, detail: u64) {
         // After an abort the threads unwind concurrently, outside the baton:
         // the log (and with it the fingerprint) is frozen at the abort.
@@ -407,6 +420,7 @@ impl Sim {
                 Status::Runnable => 1,
                 Status::Blocked(_) => 2,
                 Status::Done => 3,
+                Status::Waiting(_) => 4,
             });
         }
         h.u64(pick as u64);
@@ -521,6 +535,8 @@ impl Sim {
                 lock_ids: vec![],
                 lazy_ids: vec![],
                 lazy_cold_seen: vec![],
+                cv_ids: vec![],
+                cv_waiters: vec![],
                 rng,
                 strategy: cfg.strategy,
                 prio,
@@ -649,11 +665,11 @@ impl Env for Sim {
             let mine = ls.excl == Some(me) || (exclusive && ls.shared.contains(&me));
             if !blocking {
                 st.stats.trylock_contended += 1;
-                Self::event(&mut st, me, "trylock-busy", ord as u64);
+                Self::event(&mut st, me, "trylock-busy", 0);
                 return;
             }
             if mine {
-                Self::event(&mut st, me, "self-deadlock", ord as u64);
+                Self::event(&mut st, me, "self-deadlock", 0);
                 self.abort(&mut st, "self-deadlock");
                 drop(st);
                 Self::unwind_aborted();
@@ -664,7 +680,7 @@ impl Env for Sim {
             let waiters =
                 st.status.iter().filter(|s| matches!(s, Status::Blocked(o) if *o == ord)).count();
             st.stats.max_waiters = st.stats.max_waiters.max(waiters as u64);
-            Self::event(&mut st, me, "blocked", ord as u64);
+            Self::event(&mut st, me, "blocked", 0);
             st = self.reschedule(st, me, true);
         }
     }
@@ -696,7 +712,7 @@ impl Env for Sim {
                 st.stats.poisoned_acquisitions += 1;
             }
             st.acq_order.u64(me as u64);
-            Self::event(&mut st, me, "acquired", ord as u64 * 2 + poisoned as u64);
+            Self::event(&mut st, me, "acquired", poisoned as u64);
         }
     }
 
@@ -732,7 +748,7 @@ impl Env for Sim {
                     st.stats.unlock_unwinding_with_waiters += 1;
                 }
             }
-            Self::event(&mut st, me, if panicking { "unlock-unwinding" } else { "unlock" }, ord as u64);
+            Self::event(&mut st, me, if panicking { "unlock-unwinding" } else { "unlock" }, 0);
             if st.aborted.is_some() {
                 return;
             }
@@ -768,6 +784,87 @@ impl Env for Sim {
         if !initialised {
             self.yield_point("lazy-force", 0);
         }
+    }
+
+    fn cv_managed(&self) -> bool {
+        if tid().is_none() {
+            return false;
+        }
+        self.lock_st().active
+    }
+
+    fn cv_prepare_wait(&self, cv: usize) {
+        let Some(me) = tid() else { return };
+        let mut st = self.lock_st();
+        if !st.active {
+            return;
+        }
+        let ord = Self::ord(&mut st.cv_ids, cv);
+        while st.cv_waiters.len() <= ord {
+            st.cv_waiters.push(vec![]);
+        }
+        st.cv_waiters[ord].push((me, false));
+        st.stats.cv_waits += 1;
+        Self::event(&mut st, me, "cv-wait", 0);
+    }
+
+    fn cv_block(&self, cv: usize) {
+        let Some(me) = tid() else { return };
+        let mut st = self.lock_st();
+        if !st.active {
+            return;
+        }
+        let ord = Self::ord(&mut st.cv_ids, cv);
+        while st.cv_waiters.len() <= ord {
+            st.cv_waiters.push(vec![]);
+        }
+        loop {
+            if st.aborted.is_some() {
+                drop(st);
+                Self::unwind_aborted();
+                return;
+            }
+            if let Some(i) = st.cv_waiters[ord].iter().position(|(t, n)| *t == me && *n) {
+                st.cv_waiters[ord].remove(i);
+                Self::event(&mut st, me, "cv-woken", 0);
+                return;
+            }
+            st.status[me] = Status::Waiting(ord);
+            Self::event(&mut st, me, "cv-sleep", 0);
+            st = self.reschedule(st, me, true);
+        }
+    }
+
+    fn cv_notify(&self, cv: usize, all: bool) {
+        let Some(me) = tid() else { return };
+        {
+            let mut st = self.lock_st();
+            if !st.active {
+                return;
+            }
+            let ord = Self::ord(&mut st.cv_ids, cv);
+            while st.cv_waiters.len() <= ord {
+                st.cv_waiters.push(vec![]);
+            }
+            st.stats.cv_notifies += 1;
+            let mut woken = vec![];
+            for w in st.cv_waiters[ord].iter_mut() {
+                if !w.1 {
+                    w.1 = true;
+                    woken.push(w.0);
+                    if !all {
+                        break;
+                    }
+                }
+            }
+            for t in &woken {
+                if st.status[*t] == Status::Waiting(ord) {
+                    st.status[*t] = Status::Runnable;
+                }
+            }
+            Self::event(&mut st, me, if all { "cv-notify-all" } else { "cv-notify-one" }, woken.len() as u64);
+        }
+        self.yield_point("notified", 0);
     }
 
     fn point(&self, name: &'static str) {
